@@ -1279,7 +1279,7 @@ impl<const LENGTH: usize> TryFrom<&[u8]> for HeapByteArray<LENGTH> {
 impl From<&[u8]> for HeapBytes {
     fn from(src: &[u8]) -> Self {
         let mut arr = Self::default();
-        arr.0.copy_from_slice(src);
+        arr.0.extend_from_slice(src);
         arr
     }
 }
